@@ -13,8 +13,11 @@
         journal = "." | kseq/rec{;…};  index = "." | score/kseq{;…};  latest = "-" | rec
      →  #tag start=<start> n=<number of write requests>
         #tag <request> next=<start a fresh process reads after this request>       one per request
-        start   = empty | gap:<min> | <db>:<runid>:<offset>:<seq>
-        request = save <snap> | del <kseq> | zrem <kseq,…>
+        start   = empty | <db>:<runid>:<offset>:<seq>
+        request = save <snap> | del <kseq> | zrem <kseq,…> | delfr
+
+  c14b <tag> <ids> <recs>                               LoadBisyncLatestStartRecord over the slots of recs
+     →  #tag best=<rec|-> n=<records of the ids>
 
   c14c <tag> <ver> <runid> <seq> <offset> <t0> <events>    bisyncFrontierCoordinator
         events = ev{;ev};  ev = r<rec>@<now ns> (onCommitted) | f@<now ns> (flush)
@@ -70,12 +73,12 @@ def reqStr : Req → String
   | .saveFrontier s => s!"save {snapStr s}"
   | .delRec k => s!"del {k}"
   | .zrem ks => s!"zrem {intsStr ks}"
+  | .delFrontier => "delfr"
   | .commit r => s!"commit {r.seq}"
   | .commitLatest r => s!"latest {r.seq}"
 
 def startStr : Start → String
   | .empty => "empty"
-  | .gap m => s!"gap:{m}"
   | .point db rid off seq => s!"{db}:{Hex.encode rid}:{off}:{seq}"
 
 def startOf (mode : String) (ver : Bytes) (ns : NS) (ids : List Bytes) : Start × List Req :=
@@ -131,6 +134,16 @@ def handle : List String → Option (List String)
       let ix ← list? idx? index
       let lt ← if latest == "-" then some none else (rec? latest).map some
       pure (renderStart tag mode ver ids { root := root, frontier := fr, journal := j, index := ix, latest := lt })
+    some (r.getD [s!"#{tag} bad-op"])
+  | ["c14b", tag, ids, recs] =>
+    let r : Option (List String) := do
+      let ids ← hexList? ids
+      let recs ← list? rec? recs
+      let (b, n) := bestLatest recs ids
+      let bs := match b with
+        | none => "-"
+        | some x => s!"{x.seq}:{x.endOff}:{x.mtime}:{Hex.encode x.runId}:{x.slot}"
+      pure [s!"#{tag} best={bs} n={n}"]
     some (r.getD [s!"#{tag} bad-op"])
   | ["c14c", tag, ver, rid, seq, off, t0, evs] =>
     let r : Option (List String) := do
